@@ -25,11 +25,13 @@ func (s *Server) periodicBackup(ctx context.Context) {
 			} else {
 				lastWriteGen = gen
 			}
-			select {
-			case <-time.After(time.Minute):
-			case <-ctx.Done():
-				return
-			}
+		}
+		// Wait before checking again whether or not a backup was due, so that an
+		// idle database neither spins this loop nor ignores cancellation.
+		select {
+		case <-time.After(time.Minute):
+		case <-ctx.Done():
+			return
 		}
 	}
 }
